@@ -4,9 +4,7 @@
    The model mirrors the tree WITH the fix commits of branch fix-C04 (props/C04/NOTES.md): on the tree
    without them the first version of this slice proved `_refuted` theorems for T1 and T3; the
    inputs of those witnesses are the Examples E1, E3, E4 at the end of this file and are replayed on the
-   C++ at every run of the check.  One defect remains in the tree (hideJacobian without any force applied
-   to the variable, known_findings.txt): T1 and its corollaries carry the side condition [jac_ok] and the
-   unconditional statement is refuted by W5. *)
+   C++ at every run of the check (round 2: fix-C04-2, E5 and E7). *)
 From Coq Require Import ZArith QArith List Bool Reals Lia.
 From CV Require Import Base.Num Base.RNum C04.ABFModel C04.ABFProofs C04.ABFWitness.
 Import ListNotations.
@@ -18,57 +16,84 @@ Import ListNotations.
    (bin occupied by the variables at the step the force was exerted,
     force measured on the variable for that step - the force Colvars itself was applying at that step
     [the ABF force AS APPLIED, i.e. times the scaledBiasingForce factor, and the Jacobian compensation of
-    hideJacobian; every Colvars force for a variable with subtractAppliedForce]
+    hideJacobian; every Colvars force for a variable with subtractAppliedForce; nothing for a variable that
+    hands no force to the atoms]
     + the Jacobian term unless hideJacobian),
    in both timing conventions, with other biases, run boundaries, values inside and outside the grid,
    one or more variables.  [wf_cfg]: stepZeroData only with same-step forces (the code rejects it
-   otherwise).
-
-   FULL STATEMENT (false of the code, see _refuted below): without [jac_ok c].
-   [jac_ok c]: with hideJacobian in the lagged convention, every variable has a bias applying forces to it
-   (applyBias on, or another bias).  It is vacuous without hideJacobian and with same-step forces. *)
-Theorem C04_abf_state_is_sample_sum_partial :
-  forall (c : @abf_cfg R) (h : list (@abf_in R)) (b : idx),
-    wf_cfg c -> jac_ok c ->
+   otherwise).  [apply_const a h]: applyBias has the same value a at every step, i.e. it is a configuration
+   option as in the property text (run-time switching: T1s below).
+   No other side condition: the `jac_ok` of the previous version went with fix 318ea9be. *)
+Theorem C04_abf_state_is_sample_sum :
+  forall (c : @abf_cfg R) (h : list (@abf_in R)) (b : idx) (a : bool),
+    wf_cfg c -> apply_const a h ->
     s_cnt (fst (abf_run Rops c h)) b = cnt_of b (attributed Rops c (trace_of Rops c h)) /\
     forall k, (k < c_nd c)%nat ->
       vget Rops (s_sum (fst (abf_run Rops c h)) b) k = (- fsum_of Rops k b (attributed Rops c (trace_of Rops c h)))%R.
-Proof. exact abf_state_is_sample_sum. Qed.
-Print Assumptions C04_abf_state_is_sample_sum_partial.
-
-(* W5: hideJacobian, lagged forces, applyBias off, no other bias, Jacobian force 3, engine force 1: the
-   stored sum of bin [0] is -8 (samples 4 and 4), minus the attributed samples (1 and 1) is -2. *)
-Theorem C04_abf_state_is_sample_sum_refuted :
-  exists (c : @abf_cfg Q) (h : list (@abf_in Q)) (b : idx),
-    c_szd c = false /\ c_hidej c = true /\ c_same_step c = false /\ c_apply c = false /\
-    stored_cnt c h b = spec_cnt c h b /\
-    Qeq_bool (stored_sum c h b 0) (spec_sum c h b 0) = false.
-Proof. exists w5_cfg, w5_hist, [0%Z]. vm_compute. repeat split; reflexivity. Qed.
-Print Assumptions C04_abf_state_is_sample_sum_refuted.
+Proof. exact abf_state_is_sample_sum_const. Qed.
+Print Assumptions C04_abf_state_is_sample_sum.
 
 (* the same for the whole vector stored in the bin *)
-Theorem C04_abf_sum_vector_partial :
-  forall (c : @abf_cfg R) (h : list (@abf_in R)) (b : idx),
-    wf_cfg c -> jac_ok c ->
+Theorem C04_abf_sum_vector :
+  forall (c : @abf_cfg R) (h : list (@abf_in R)) (b : idx) (a : bool),
+    wf_cfg c -> apply_const a h ->
     s_sum (fst (abf_run Rops c h)) b
     = vbuild (c_nd c) (fun k => (- fsum_of Rops k b (attributed Rops c (trace_of Rops c h)))%R).
-Proof. exact abf_sum_vector. Qed.
-Print Assumptions C04_abf_sum_vector_partial.
+Proof. exact abf_sum_vector_const. Qed.
+Print Assumptions C04_abf_sum_vector.
 
 (* ---- T1'.  The property as worded: the stored free-energy gradient of every bin (what
    colvar_grid_gradient::value_output writes to the state and .grad files, [grad_out] = sum / count) is
    MINUS THE ARITHMETIC MEAN of the forces of the samples attributed to the bin, the stored count is their
    number, and the gradient of a bin without samples is 0. *)
-Theorem C04_stored_gradient_is_minus_mean_partial :
-  forall (c : @abf_cfg R) (h : list (@abf_in R)) (b : idx) (k : nat),
-    wf_cfg c -> jac_ok c -> (k < c_nd c)%nat ->
+Theorem C04_stored_gradient_is_minus_mean :
+  forall (c : @abf_cfg R) (h : list (@abf_in R)) (b : idx) (k : nat) (a : bool),
+    wf_cfg c -> apply_const a h -> (k < c_nd c)%nat ->
     let s := fst (abf_run Rops c h) in
     let S := attributed Rops c (trace_of Rops c h) in
     s_cnt s b = cnt_of b S /\
     ((0 < cnt_of b S)%Z -> grad_out Rops (s_cnt s) (s_sum s) b k = (- mean_force S b k)%R) /\
     (cnt_of b S = 0%Z -> grad_out Rops (s_cnt s) (s_sum s) b k = 0%R).
-Proof. exact stored_gradient_is_minus_mean. Qed.
-Print Assumptions C04_stored_gradient_is_minus_mean_partial.
+Proof. exact stored_gradient_is_minus_mean_const. Qed.
+Print Assumptions C04_stored_gradient_is_minus_mean.
+
+(* ---- T1i.  inputPrefix (a list of prefixes, one data set each, added in order): a run started from data read
+   from .count/.grad files ends with count = counts read + number of attributed samples,
+   sum = sum over the data sets of gradient read * count read - sum of the sample forces. *)
+Theorem C04_abf_state_with_input_data :
+  forall (c : @abf_cfg R) (l : list (@dataset R)) (h : list (@abf_in R)) (b : idx) (a : bool),
+    wf_cfg c -> apply_const a h ->
+    let s0 := abf_init_data Rops c l in
+    let r := abf_run_data Rops c l h in
+    let S := attributed Rops c (trace_from Rops c s0 h) in
+    s_cnt (fst r) b = (data_cnt l b + cnt_of b S)%Z /\
+    forall k, (k < c_nd c)%nat ->
+      vget Rops (s_sum (fst r) b) k = (data_sum l b k - fsum_of Rops k b S)%R.
+Proof. exact abf_state_with_input_data_const. Qed.
+Print Assumptions C04_abf_state_with_input_data.
+
+(* ---- T1s.  applyBias switched at run time (`cv bias <name> set apply_force 0|1`: [i_apply] differs from
+   step to step).  FULL STATEMENT (false of the code, see _refuted): T1 for every history.
+   It holds under [steady c a h]: with hideJacobian AND lagged forces the switch is not used; without
+   hideJacobian, or with same-step forces, applyBias may change at every step (Examples below). *)
+Theorem C04_abf_state_is_sample_sum_switching_partial :
+  forall (c : @abf_cfg R) (h : list (@abf_in R)) (b : idx) (a : bool),
+    wf_cfg c -> steady c a h ->
+    s_cnt (fst (abf_run Rops c h)) b = cnt_of b (attributed Rops c (trace_of Rops c h)) /\
+    forall k, (k < c_nd c)%nat ->
+      vget Rops (s_sum (fst (abf_run Rops c h)) b) k = (- fsum_of Rops k b (attributed Rops c (trace_of Rops c h)))%R.
+Proof. exact abf_state_is_sample_sum. Qed.
+Print Assumptions C04_abf_state_is_sample_sum_switching_partial.
+
+(* W7: hideJacobian, lagged forces, Jacobian force 3, engine force 1, applyBias on at step 0 and switched off
+   before step 1: the stored sum of bin [0] is +1 (samples -2 and 1), minus the attributed samples (1, 1) is -2. *)
+Theorem C04_abf_state_is_sample_sum_switching_refuted :
+  exists (c : @abf_cfg Q) (h : list (@abf_in Q)) (b : idx),
+    c_szd c = false /\ c_hidej c = true /\ c_same_step c = false /\
+    stored_cnt c h b = spec_cnt c h b /\
+    Qeq_bool (stored_sum c h b 0) (spec_sum c h b 0) = false.
+Proof. exists w7_cfg, w7_hist, [0%Z]. vm_compute. repeat split; reflexivity. Qed.
+Print Assumptions C04_abf_state_is_sample_sum_switching_refuted.
 
 (* ---- T2.  The ABF force handed to variable k at the step that follows any history is
    ramp(count b) * (sum b / count b) for the current bin b (count and sum AFTER this step's accumulation),
@@ -81,7 +106,7 @@ Theorem C04_applied_force :
     (c_cap c = true -> (0 <= vget Rops (c_maxf c) k)%R) ->
     let s := fst (abf_run Rops c h) in
     let s1 := fst (abf_step Rops c s i) in
-    vget Rops (o_fabf (snd (abf_step Rops c s i))) k = spec_force c (s_cnt s1) (s_sum s1) (bins Rops c (i_x i)) k.
+    vget Rops (o_fabf (snd (abf_step Rops c s i))) k = spec_force c (i_apply i) (s_cnt s1) (s_sum s1) (bins Rops c (i_x i)) k.
 Proof. exact applied_force_after_history. Qed.
 Print Assumptions C04_applied_force.
 
@@ -89,14 +114,14 @@ Print Assumptions C04_applied_force.
    step i, the ABF force of that step is [spec_force_samples] of the samples attributed in h ++ [i]:
    ramp(N_b) * (- arithmetic mean of the N_b sample forces of the current bin b), minus the grid average of
    the same quantity for one periodic variable, clipped to +-maxForce, 0 outside the grid / applyBias off. *)
-Theorem C04_applied_force_is_smoothed_negative_mean_partial :
-  forall (c : @abf_cfg R) (h : list (@abf_in R)) (i : @abf_in R) (k : nat),
-    wf_cfg c -> jac_ok c -> (k < c_nd c)%nat -> (0 <= c_min c < c_full c)%Z ->
+Theorem C04_applied_force_is_smoothed_negative_mean :
+  forall (c : @abf_cfg R) (h : list (@abf_in R)) (i : @abf_in R) (k : nat) (a : bool),
+    wf_cfg c -> apply_const a (h ++ [i]) -> (k < c_nd c)%nat -> (0 <= c_min c < c_full c)%Z ->
     (c_cap c = true -> (0 <= vget Rops (c_maxf c) k)%R) ->
     vget Rops (o_fabf (snd (abf_step Rops c (fst (abf_run Rops c h)) i))) k
-    = spec_force_samples c (attributed Rops c (trace_of Rops c (h ++ [i]))) (bins Rops c (i_x i)) k.
-Proof. exact applied_force_is_smoothed_negative_mean. Qed.
-Print Assumptions C04_applied_force_is_smoothed_negative_mean_partial.
+    = spec_force_samples c a (attributed Rops c (trace_of Rops c (h ++ [i]))) (bins Rops c (i_x i)) k.
+Proof. exact applied_force_is_smoothed_negative_mean_const. Qed.
+Print Assumptions C04_applied_force_is_smoothed_negative_mean.
 
 (* what the variable receives from the bias is that force times the factor of the scaling grid at the current
    bin when scaledBiasingForce is on (1 otherwise) *)
@@ -110,7 +135,7 @@ Print Assumptions C04_applied_force_scaled.
 
 Theorem C04_no_force_outside_grid :
   forall (c : @abf_cfg R) (s : @abf_state R) (i : @abf_in R) (k : nat),
-    c_apply c && index_ok c (bins Rops c (i_x i)) = false ->
+    i_apply i && index_ok c (bins Rops c (i_x i)) = false ->
     vget Rops (o_fabf (snd (abf_step Rops c s i))) k = 0%R.
 Proof. exact no_force_outside. Qed.
 Print Assumptions C04_no_force_outside_grid.
@@ -120,25 +145,25 @@ Print Assumptions C04_no_force_outside_grid.
    samples of every history. *)
 Theorem C04_zero_mean_periodic :
   forall (c : @abf_cfg R) (cnt : idx -> Z) (sum : idx -> @vec R),
-    c_nd c = 1%nat -> bget (c_periodic c) 0 = true -> c_apply c = true -> c_cap c = false ->
-    gsum Rops (map (fun i => spec_force c cnt sum [i] 0) (zrange (zget (c_nx c) 0))) = 0%R.
+    c_nd c = 1%nat -> bget (c_periodic c) 0 = true -> c_cap c = false ->
+    gsum Rops (map (fun i => spec_force c true cnt sum [i] 0) (zrange (zget (c_nx c) 0))) = 0%R.
 Proof. exact zero_mean_periodic. Qed.
 Print Assumptions C04_zero_mean_periodic.
 
 Theorem C04_zero_mean_periodic_samples :
   forall (c : @abf_cfg R) (S : list (idx * @vec R)),
-    c_nd c = 1%nat -> bget (c_periodic c) 0 = true -> c_apply c = true -> c_cap c = false ->
-    gsum Rops (map (fun i => spec_force_samples c S [i] 0) (zrange (zget (c_nx c) 0))) = 0%R.
+    c_nd c = 1%nat -> bget (c_periodic c) 0 = true -> c_cap c = false ->
+    gsum Rops (map (fun i => spec_force_samples c true S [i] 0) (zrange (zget (c_nx c) 0))) = 0%R.
 Proof. exact zero_mean_periodic_samples. Qed.
 Print Assumptions C04_zero_mean_periodic_samples.
 
 (* the documented "no bias below minSamples": while no bin has more than minSamples samples the force is 0
    in every bin, periodic or not *)
 Theorem C04_no_force_below_min :
-  forall (c : @abf_cfg R) (cnt : idx -> Z) (sum : idx -> @vec R) (b : idx) (k : nat),
+  forall (c : @abf_cfg R) (a : bool) (cnt : idx -> Z) (sum : idx -> @vec R) (b : idx) (k : nat),
     (0 <= c_min c < c_full c)%Z -> (c_cap c = true -> (0 <= vget Rops (c_maxf c) k)%R) ->
     (forall b', (0 <= cnt b' <= c_min c)%Z) ->
-    spec_force c cnt sum b k = 0%R.
+    spec_force c a cnt sum b k = 0%R.
 Proof. exact no_force_below_min. Qed.
 Print Assumptions C04_no_force_below_min.
 
@@ -161,17 +186,21 @@ Print Assumptions C04_run_boundary_history.
 
 (* ---- non-vacuity *)
 
-(* wf_cfg and jac_ok hold for a lagged configuration with hideJacobian (non-vacuously: applyBias on), with a
-   two-step history; jac_ok holds for every configuration without hideJacobian or with same-step forces *)
+(* wf_cfg and steady hold for a lagged configuration with hideJacobian, with a two-step history in which applyBias
+   is on; apply_const for that history; steady holds for EVERY history (any switching) without hideJacobian or with
+   same-step forces *)
 Example C04_example_wf :
-  let c := @mkCfg R 1 [0%R] [1%R] [2%Z] [false] 2 1 true true false [0%R] false false [false] true [false] true (fun _ => (1/2)%R) in
-  let h := [@mkIn R [(1/2)%R] [1%R] [0%R] [3%R] false; @mkIn R [(1/2)%R] [0%R] [0%R] [3%R] false] in
-  wf_cfg c /\ jac_ok c /\ c_hidej c = true /\ c_same_step c = false /\ length (trace_of Rops c h) = 2%nat.
+  let c := @mkCfg R 1 [0%R] [1%R] [2%Z] [false] 2 1 true false [0%R] false false [false] true [false] true (fun _ => (1/2)%R) in
+  let h := [@mkIn R [(1/2)%R] [1%R] [0%R] [3%R] false true; @mkIn R [(1/2)%R] [0%R] [0%R] [3%R] false true] in
+  wf_cfg c /\ steady c true h /\ c_hidej c = true /\ c_same_step c = false /\ length (trace_of Rops c h) = 2%nat.
 Proof. exact example_wf_lagged. Qed.
-Example C04_example_jac_ok_nohide : forall c : @abf_cfg R, c_hidej c = false -> jac_ok c.
-Proof. exact jac_ok_nohide. Qed.
-Example C04_example_jac_ok_same : forall c : @abf_cfg R, c_same_step c = true -> jac_ok c.
-Proof. exact jac_ok_same. Qed.
+Example C04_example_apply_const :
+  apply_const true [@mkIn R [(1/2)%R] [1%R] [0%R] [3%R] false true; @mkIn R [(1/2)%R] [0%R] [0%R] [3%R] false true].
+Proof. exact example_apply_const. Qed.
+Example C04_example_steady_nohide : forall (c : @abf_cfg R) a h, c_hidej c = false -> steady c a h.
+Proof. exact steady_nohide. Qed.
+Example C04_example_steady_same : forall (c : @abf_cfg R) a h, c_same_step c = true -> steady c a h.
+Proof. exact steady_same. Qed.
 
 (* T4's premise s_started = true holds after any step *)
 Example C04_example_started : forall (c : @abf_cfg R) s i, s_started (fst (abf_step Rops c s i)) = true.
@@ -184,7 +213,9 @@ Proof. exact started_after_step. Qed.
           -5/4 and +5/4;
    E4:    hideJacobian with a non-zero Jacobian force, same-step and lagged: the samples are the engine
           force 1 and the variable receives ABF force - fj;
-   E6:    scaledBiasingForce 1/2, lagged: ABF force -2, applied -1, every sample is the engine force 2. *)
+   E6:    scaledBiasingForce 1/2, lagged: ABF force -2, applied -1, every sample is the engine force 2;
+   E5:    hideJacobian, lagged, nothing applied to the variable: samples are the engine force 1, applied force 0;
+   E7:    applyBias switched off and on again at run time, lagged: five samples of 2. *)
 Example C04_example_E1 :
   stored_cnt e1_cfg e1_hist [0%Z] = 2%Z /\ spec_cnt e1_cfg e1_hist [0%Z] = 2%Z /\
   Qeq_bool (stored_sum e1_cfg e1_hist [0%Z] 0) (-(1)) = true /\
@@ -215,3 +246,14 @@ Example C04_example_E6 :
   Qeq_bool (spec_sum e6_cfg e6_hist [0%Z] 0) (-(6#1)) = true /\
   Qeq_bool (last_applied e6_cfg e6_hist) (-(1)) = true.
 Proof. exact e6_values. Qed.
+Example C04_example_E5 :
+  stored_cnt e5_cfg e5_hist [0%Z] = 2%Z /\ spec_cnt e5_cfg e5_hist [0%Z] = 2%Z /\
+  Qeq_bool (stored_sum e5_cfg e5_hist [0%Z] 0) (-(2#1)) = true /\
+  Qeq_bool (spec_sum e5_cfg e5_hist [0%Z] 0) (-(2#1)) = true /\
+  Qeq_bool (last_applied e5_cfg e5_hist) 0 = true.
+Proof. exact e5_values. Qed.
+Example C04_example_E7 :
+  stored_cnt e7_cfg e7_hist [0%Z] = 5%Z /\ spec_cnt e7_cfg e7_hist [0%Z] = 5%Z /\
+  Qeq_bool (stored_sum e7_cfg e7_hist [0%Z] 0) (-(10#1)) = true /\
+  Qeq_bool (spec_sum e7_cfg e7_hist [0%Z] 0) (-(10#1)) = true.
+Proof. exact e7_values. Qed.
